@@ -663,9 +663,6 @@ class Prepared:
                                 if repr(vt) != repr(self.expected[j]) and compare(vt, got_tree) is None]
                         # bucket = symptom class + option scope; finer hints go into the note
                         key = 'wrong-' + ('value' if mm in ('value', 'inf', 'nan') else mm)
-                        if 'loop-bound-rebound-in-body' in feats_all:
-                            # root cause seen with this shape: the emitted loop test re-reads a `range` bound the body rebinds
-                            key += '/loop-bound-rebound-in-body'
                         hint = f'mismatch={mm}' + (f' as-if-{"+".join(asif)}' if asif else '')
                         got = show_tree(got_tree)
                 f = failing.setdefault(key, [[], got, ''])
